@@ -7,13 +7,16 @@
       CNAME chain starting there
    Z3 every started query has ended by the end of the run and within cfg.bound of its start
    Z4 retransmissions to one server are at least 1 s apart and their spacing does not shrink
+   Z5 a query that no matching response was delivered for does not fail before every server has had its 10 s
    ZN parse_name equals the name-walk model (labels or error) and terminates
    Z5 no panic *)
 EXTENDS DnsNameOps, FiniteSets, TLC, Json, IOUtils
 Rec == ndJsonDeserialize(IOEnv.TRACE)
 VARIABLES l, run, cfg, viol, hits, nruns, qs
 vars == <<l, run, cfg, viol, hits, nruns, qs>>
-Rules == {"Z1", "Z2", "Z3", "Z4", "ZN", "Q1", "Q2", "PANIC"}
+Rules == {"Z1", "Z2", "Z3", "Z4", "Z5", "ZN", "Q1", "Q2", "PANIC"}
+\* a name resolved by multicast DNS: its last label is "local"
+IsLocal(n) == Len(n) >= 6 /\ SubSeq(n, Len(n) - 5, Len(n)) = ".local"
 Add(v, x) == IF Len(v) >= 24 THEN v ELSE Append(v, x)
 RECURSIVE AddAll(_, _)
 AddAll(v, xs) == IF xs = <<>> THEN v ELSE AddAll(Add(v, Head(xs)), Tail(xs))
@@ -66,7 +69,11 @@ ResFold(q, res, now) ==
                    z1 == IF r.res = "ok" /\ ~e.matched THEN << <<l, "Z1", r.q, e.name>> >> ELSE <<>>
                    z2 == IF r.res = "ok" /\ e.matched /\ \E k \in 1..Len(r.addrs) : r.addrs[k] \notin e.allowed THEN << <<l, "Z2", r.q, r.addrs[1]>> >> ELSE <<>>
                    z3 == IF now - e.start > cfg.bound THEN << <<l, "Z3", r.q, now - e.start>> >> ELSE <<>>
-               IN ResFold([s |-> [q.s EXCEPT ![i].open = FALSE], v |-> q.v \o z1 \o z2 \o z3], Tail(res), now)
+                   \* Z5: a query no matching response was delivered for fails by time-outs only, and every server (for a
+                   \* multicast name: the IPv6 and the IPv4 group) gets its 10 s first
+                   nsrv == IF IsLocal(e.name) THEN 2 ELSE cfg.servers
+                   z5 == IF r.res = "failed" /\ ~e.matched /\ now - e.start < 10000 * nsrv - 5 THEN << <<l, "Z5", r.q, now - e.start, nsrv>> >> ELSE <<>>
+               IN ResFold([s |-> [q.s EXCEPT ![i].open = FALSE], v |-> q.v \o z1 \o z2 \o z3 \o z5], Tail(res), now)
 Step ==
   /\ l <= Len(Rec) /\ l' = l + 1
   /\ LET r == Rec[l] IN
